@@ -185,7 +185,17 @@ int flush_pubsub_msgs(void *data, const char *key, void *value) {
          * ie: we are stopping looping on the context.
          * Else, just free msg.
          */
-        if (!stopping_mod && m_mod_is(mod, M_MOD_RUNNING)) {
+        bool fired_yet = false;
+        if (!stopping_mod && mm->sub && mm->sub->flags & M_SRC_ONESHOT) {
+            /* Same as in the receive loop: a oneshot subscription fires only once and is then removed */
+            if (mm->sub->flags & M_SRC_ZOMBIE) {
+                fired_yet = true;
+            } else if (m_mod_is(mod, M_MOD_RUNNING)) {
+                mm->sub->flags |= M_SRC_ZOMBIE;
+                m_map_remove(mod->subscriptions, mm->sub->ps_src.topic);
+            }
+        }
+        if (!stopping_mod && !fired_yet && m_mod_is(mod, M_MOD_RUNNING)) {
             M_DEBUG("Flushing enqueued pubsub message for module '%s'.\n", mod->name);
             evt_priv_t *msg = new_evt(mm->sub);
             if (msg && flushed) {
